@@ -3,6 +3,7 @@ package props
 import (
 	"fmt"
 	"reflect"
+	"strings"
 	"sync"
 
 	"github.com/ucan-wg/go-ucan/pkg/command"
@@ -59,6 +60,25 @@ func validCommands(maxLen int) []string {
 	return res
 }
 
+// c15FoldAlphabet: lower-case letters that are case-fold partners of one another (s/ſ, σ/ς, k/K-sign
+// folds to k), a title-case digraph and its lower-case form, next to plain ASCII: valid UTF-8 only.
+var c15FoldAlphabet = []string{"/", "s", "ſ", "σ", "ς", "ǆ", "ǅ", "\u212a"}
+
+func validFoldCommands(maxLen int) []string {
+	if v, ok := validCmdMemo.Load(-maxLen); ok {
+		return v.([]string)
+	}
+	var res []string
+	allStrings(c15FoldAlphabet, maxLen, func(s string) bool {
+		if refmodel.CmdValid(s) {
+			res = append(res, s)
+		}
+		return true
+	})
+	validCmdMemo.Store(-maxLen, res)
+	return res
+}
+
 func validCommandsUncached(maxLen int) []string {
 	var res []string
 	allStrings(c15Alphabet, maxLen, func(s string) bool {
@@ -78,6 +98,18 @@ type c15TripleCase struct {
 	MaxLen int
 	Y, Z   string // set only in replay descriptors
 }
+type c15JoinKeptCase struct {
+	Lists []int `json:"lists"` // indexes into c15LongSegLists, joined one after the other
+}
+
+func c15LongSegLists() [][]string {
+	rep := strings.Repeat
+	return [][]string{
+		{"a"}, {rep("b", 62)}, {rep("c", 63), "d"}, {rep("e", 94)}, {rep("f", 95)}, {rep("g", 96)}, {rep("h", 50), rep("i", 50)},
+		{rep("j", 127), "k"}, {rep("l", 255)}, {rep("m", 256), "", "n"}, {rep("o", 1023), rep("p", 1)}, {rep("q", 2500), rep("r", 2500)},
+	}
+}
+
 type c15JoinCase struct {
 	C    string
 	Segs []string
@@ -91,108 +123,116 @@ func tierN(tier string, q, t int) int {
 }
 
 func C15() *engine.Check {
-	parse := &engine.Sub{
-		Name:   "parse",
-		Repeat: true,
-		Rule:   "every string over {/,a,b,A,é,É} up to the length bound is offered to command.Parse; non-trivial = accepted by the reference grammar or by Parse",
-		Bound:  func(t string) string { return fmt.Sprintf("length<=%d symbols", tierN(t, 6, 8)) },
-		Gen: func(tier string, emit func(any) bool) {
-			allStrings(c15Alphabet, tierN(tier, 6, 8), func(s string) bool { return emit(&c15ParseCase{S: s}) })
-		},
-		NewCase: func() any { return &c15ParseCase{} },
-		Run: func(ctx *engine.Ctx, c any) {
-			cs := c.(*c15ParseCase)
-			ctx.Eval(1)
-			ctx.States(1)
-			ctx.Trans(1)
-			got, err := command.Parse(cs.S)
-			want := refmodel.CmdValid(cs.S)
-			if want || err == nil {
-				ctx.Nontrivial(1)
-			}
-			switch {
-			case err == nil && !want:
-				ctx.Outcome("accepted-invalid")
-				ctx.Failf(cs, "parse/accepts-invalid", "Parse(%q) accepted a string outside the command grammar", cs.S)
-			case err != nil && want:
-				ctx.Outcome("rejected-valid")
-				ctx.Failf(cs, "parse/rejects-valid", "Parse(%q) rejected a valid command: %v", cs.S, err)
-			case err == nil:
-				ctx.Outcome("accepted")
-				if string(got) != cs.S || got.String() != cs.S {
-					ctx.Failf(cs, "parse/altered", "Parse(%q) returned %q", cs.S, got)
-				}
-				if command.IsValid(cs.S) != true {
-					ctx.Failf(cs, "parse/isvalid-disagrees", "IsValid(%q)=false but Parse accepts", cs.S)
-				}
-				if !reflect.DeepEqual(append([]string{}, got.Segments()...), refmodel.CmdSegs(cs.S)) {
-					ctx.Failf(cs, "segments/wrong", "Segments(%q)=%q want %q", cs.S, got.Segments(), refmodel.CmdSegs(cs.S))
-				}
-			default:
-				ctx.Outcome("rejected")
-				if command.IsValid(cs.S) {
-					ctx.Failf(cs, "parse/isvalid-disagrees", "IsValid(%q)=true but Parse rejects", cs.S)
-				}
-			}
-		},
-	}
-
-	pairs := &engine.Sub{
-		Name:   "covers-pairs",
-		Repeat: true,
-		Rule:   "every ordered pair of valid commands up to the length bound; Covers compared with the reference segment-prefix relation; antisymmetry, reflexivity, top; non-trivial = pairs sharing a textual prefix",
-		Bound:  func(t string) string { return fmt.Sprintf("both commands length<=%d symbols", tierN(t, 6, 7)) },
-		Gen: func(tier string, emit func(any) bool) {
-			cmds := validCommands(tierN(tier, 6, 7))
-			for _, x := range cmds {
-				if !emit(&c15PairCase{X: x}) {
-					return
-				}
-			}
-		},
-		NewCase: func() any { return &c15PairCase{} },
-		Run: func(ctx *engine.Ctx, c any) {
-			cs := c.(*c15PairCase)
-			ys := []string{cs.Y}
-			if cs.Y == "" {
-				ys = validCommands(tierN(ctx.Tier, 6, 7))
-			}
-			x := command.MustParse(cs.X)
-			for _, ys1 := range ys {
-				y := command.MustParse(ys1)
+	mkParse := func(name, alphaDesc string, alpha []string, q, t int) *engine.Sub {
+		return &engine.Sub{
+			Name:   name,
+			Repeat: true,
+			Rule:   "every string over " + alphaDesc + " up to the length bound is offered to command.Parse; non-trivial = accepted by the reference grammar or by Parse",
+			Bound:  func(tr string) string { return fmt.Sprintf("length<=%d symbols", tierN(tr, q, t)) },
+			Gen: func(tier string, emit func(any) bool) {
+				allStrings(alpha, tierN(tier, q, t), func(s string) bool { return emit(&c15ParseCase{S: s}) })
+			},
+			NewCase: func() any { return &c15ParseCase{} },
+			Run: func(ctx *engine.Ctx, c any) {
+				cs := c.(*c15ParseCase)
 				ctx.Eval(1)
 				ctx.States(1)
 				ctx.Trans(1)
-				got := x.Covers(y)
-				want := refmodel.CmdCovers(cs.X, ys1)
-				rc := &c15PairCase{X: cs.X, Y: ys1}
-				if len(ys1) >= len(cs.X) && ys1[:len(cs.X)] == cs.X {
+				got, err := command.Parse(cs.S)
+				want := refmodel.CmdValid(cs.S)
+				if want || err == nil {
 					ctx.Nontrivial(1)
 				}
-				if got != want {
-					cls := "covers/too-wide"
-					if !got {
-						cls = "covers/too-narrow"
+				switch {
+				case err == nil && !want:
+					ctx.Outcome("accepted-invalid")
+					ctx.Failf(cs, "parse/accepts-invalid", "Parse(%q) accepted a string outside the command grammar", cs.S)
+				case err != nil && want:
+					ctx.Outcome("rejected-valid")
+					ctx.Failf(cs, "parse/rejects-valid", "Parse(%q) rejected a valid command: %v", cs.S, err)
+				case err == nil:
+					ctx.Outcome("accepted")
+					if string(got) != cs.S || got.String() != cs.S {
+						ctx.Failf(cs, "parse/altered", "Parse(%q) returned %q", cs.S, got)
 					}
-					ctx.Failf(rc, cls, "Covers(%q,%q)=%v, segment-prefix order says %v", cs.X, ys1, got, want)
-				}
-				if got {
-					ctx.Outcome("covers")
-					if y.Covers(x) && cs.X != ys1 {
-						ctx.Failf(rc, "covers/not-antisymmetric", "%q and %q cover each other", cs.X, ys1)
+					if command.IsValid(cs.S) != true {
+						ctx.Failf(cs, "parse/isvalid-disagrees", "IsValid(%q)=false but Parse accepts", cs.S)
 					}
-				} else {
-					ctx.Outcome("not-covers")
+					if !reflect.DeepEqual(append([]string{}, got.Segments()...), refmodel.CmdSegs(cs.S)) {
+						ctx.Failf(cs, "segments/wrong", "Segments(%q)=%q want %q", cs.S, got.Segments(), refmodel.CmdSegs(cs.S))
+					}
+				default:
+					ctx.Outcome("rejected")
+					if command.IsValid(cs.S) {
+						ctx.Failf(cs, "parse/isvalid-disagrees", "IsValid(%q)=true but Parse rejects", cs.S)
+					}
 				}
-				if cs.X == ys1 && !got {
-					ctx.Failf(rc, "covers/not-reflexive", "%q does not cover itself", cs.X)
-				}
-				if cs.X == "/" && !got {
-					ctx.Failf(rc, "covers/top", "/ does not cover %q", ys1)
-				}
-			}
-		},
+			},
+		}
 	}
+	parse := mkParse("parse", "{/,a,b,A,é,É}", c15Alphabet, 6, 8)
+	parseFold := mkParse("parse-case-fold-classes", "{/, s, ſ (long s), σ, ς (final sigma), ǆ, ǅ (title case), K (Kelvin sign)}", c15FoldAlphabet, 5, 6)
+
+	mkPairs := func(name, alphaDesc string, cmdsOf func(n int) []string, q, t int) *engine.Sub {
+		return &engine.Sub{
+			Name:   name,
+			Repeat: true,
+			Rule:   "every ordered pair of valid commands over " + alphaDesc + " up to the length bound; Covers compared with the reference segment-prefix relation; antisymmetry, reflexivity, top; non-trivial = pairs sharing a textual prefix",
+			Bound:  func(tr string) string { return fmt.Sprintf("both commands length<=%d symbols", tierN(tr, q, t)) },
+			Gen: func(tier string, emit func(any) bool) {
+				cmds := cmdsOf(tierN(tier, q, t))
+				for _, x := range cmds {
+					if !emit(&c15PairCase{X: x}) {
+						return
+					}
+				}
+			},
+			NewCase: func() any { return &c15PairCase{} },
+			Run: func(ctx *engine.Ctx, c any) {
+				cs := c.(*c15PairCase)
+				ys := []string{cs.Y}
+				if cs.Y == "" {
+					ys = cmdsOf(tierN(ctx.Tier, q, t))
+				}
+				x := command.MustParse(cs.X)
+				for _, ys1 := range ys {
+					y := command.MustParse(ys1)
+					ctx.Eval(1)
+					ctx.States(1)
+					ctx.Trans(1)
+					got := x.Covers(y)
+					want := refmodel.CmdCovers(cs.X, ys1)
+					rc := &c15PairCase{X: cs.X, Y: ys1}
+					if len(ys1) >= len(cs.X) && ys1[:len(cs.X)] == cs.X {
+						ctx.Nontrivial(1)
+					}
+					if got != want {
+						cls := "covers/too-wide"
+						if !got {
+							cls = "covers/too-narrow"
+						}
+						ctx.Failf(rc, cls, "Covers(%q,%q)=%v, segment-prefix order says %v", cs.X, ys1, got, want)
+					}
+					if got {
+						ctx.Outcome("covers")
+						if y.Covers(x) && cs.X != ys1 {
+							ctx.Failf(rc, "covers/not-antisymmetric", "%q and %q cover each other", cs.X, ys1)
+						}
+					} else {
+						ctx.Outcome("not-covers")
+					}
+					if cs.X == ys1 && !got {
+						ctx.Failf(rc, "covers/not-reflexive", "%q does not cover itself", cs.X)
+					}
+					if cs.X == "/" && !got {
+						ctx.Failf(rc, "covers/top", "/ does not cover %q", ys1)
+					}
+				}
+			},
+		}
+	}
+	pairs := mkPairs("covers-pairs", "{/,a,b,A,é,É}", validCommands, 6, 7)
+	pairsFold := mkPairs("covers-pairs-case-fold-classes", "{/, s, ſ, σ, ς, ǆ} (lower-case letters that are case-fold partners)", validFoldCommands, 4, 5)
 
 	triples := &engine.Sub{
 		Name:  "covers-transitive",
@@ -303,12 +343,72 @@ func C15() *engine.Check {
 		},
 	}
 
+	joinKept := &engine.Sub{
+		Name:   "join-long-results-kept",
+		Serial: true,
+		Rule:   "Join with segments whose total length crosses 64, 96, 128, 256, 1024 and 4096 bytes, from several receivers; ALL results of a case are kept while the later Joins of the case (and of the previous cases) run, and are compared with the reference afterwards: a returned command is a value, not a view of a reusable buffer; non-trivial = all",
+		Bound: func(string) string {
+			return "4 receivers x 12 segment lists (total 1..5000 bytes) in every order of 3 consecutive Joins"
+		},
+		Gen: func(tier string, emit func(any) bool) {
+			for a := 0; a < 12; a++ {
+				for b := 0; b < 12; b++ {
+					for c := 0; c < 12; c++ {
+						if !emit(&c15JoinKeptCase{Lists: []int{a, b, c}}) {
+							return
+						}
+					}
+				}
+			}
+		},
+		NewCase: func() any { return &c15JoinKeptCase{} },
+		Run: func(ctx *engine.Ctx, c any) {
+			cs := c.(*c15JoinKeptCase)
+			lists := c15LongSegLists()
+			recv := []string{"/", "/a", "/" + strings.Repeat("r", 90), "/x/y/z"}
+			type kept struct {
+				got  command.Command
+				want string
+			}
+			var ks []kept
+			for i, li := range cs.Lists {
+				for _, r := range recv {
+					segs := lists[li]
+					want := r
+					for _, s := range segs {
+						if s == "" {
+							continue
+						}
+						if want != "/" {
+							want += "/"
+						}
+						want += s
+					}
+					ks = append(ks, kept{command.Command(r).Join(segs...), want})
+					ctx.Eval(1)
+					ctx.Trans(1)
+				}
+				_ = i
+			}
+			ctx.States(1)
+			ctx.Nontrivial(1)
+			for i, k := range ks {
+				if string(k.got) != k.want {
+					ctx.Outcome("kept-result-changed")
+					ctx.Failf(cs, "join/kept-result-differs", "result #%d of the Joins %v (%d bytes) reads %.40q... afterwards, want %.40q...", i, cs.Lists, len(k.want), string(k.got), k.want)
+					return
+				}
+			}
+			ctx.Outcome("kept-ok")
+		},
+	}
+
 	return &engine.Check{
 		Property: "C15",
 		Level:    "model_checking",
-		Subs:     []*engine.Sub{parse, pairs, triples, join},
+		Subs:     []*engine.Sub{parse, parseFold, pairs, pairsFold, triples, join, joinKept, c15ConcSub()},
 		Assumptions: []string{
-			"alphabet {/,a,b,A,é,É}: valid UTF-8 only; behaviour on invalid UTF-8 is not decided by the property",
+			"alphabets {/,a,b,A,é,É} and {/,s,ſ,σ,ς,ǆ,ǅ,K}: valid UTF-8 only; behaviour on invalid UTF-8 is not decided by the property",
 			"reference model: strings.Split on '/' after the leading slash; unicode.ToLower per rune",
 		},
 	}
